@@ -90,6 +90,9 @@ func runCmd(args []string) {
 			}
 		}
 	})
+	for _, l := range e.ProfileTop(15) {
+		fmt.Println(l)
+	}
 	s := e.Solver()
 	fmt.Printf("paths=%d steps=%d outcomes=%v reached=%v queries=%d (sat %d unsat %d unk %d) solver=%v wall=%v stop=%q\n",
 		e.Paths, e.Steps, counts, e.Reached, s.Queries, s.NSat, s.NUnsat, s.NUnk, s.Time, time.Since(t2), e.StopReason())
